@@ -3,3 +3,4 @@ import TakVerif.Model.Move
 import TakVerif.Spec.Rules
 import TakVerif.Lemmas.Board
 import TakVerif.Props.C01
+import TakVerif.Props.C06
